@@ -452,6 +452,7 @@ def run(tier):
                        'OPB rows are read as [(coeff,lit)..., op, degree] as documented in BaseOPB']
     for h in HARNESSES:
         items = [(h.name, p) for p in h.points(tier)]
+        items += gen.with_networkx_inputs(items)
         part = run_shards(shard_fn, items)
         if part.counts.get('selftest_mutants', 0) and not part.counts.get('selftest_distinguished', 0):
             part.errors.append('%s: oracle self-test distinguished none of the mutants' % h.name)
